@@ -166,3 +166,18 @@ def explore(
         stack.extend(reversed(pending))
     if bound is not None:
         st.bound_completed = bound
+
+
+def plan_depth(make_run, depth: int, cap: int = 150_000, floor: int = 2) -> tuple[int, int]:
+    """Choose the deepest history length <= ``depth`` whose exhaustive exploration is estimated to
+    stay below ``cap`` executions.  The estimate is E1**d with E1 the exact number of one-trial
+    executions from the initial state.  Returns (depth_to_use, E1).  Every exploration that is
+    then run is complete for the depth used; nothing is sampled."""
+    st = Stats()
+    for _ in explore(make_run(1), stats=st):
+        pass
+    e1 = max(st.executions, 1)
+    d = depth
+    while d > floor and e1**d > cap:
+        d -= 1
+    return d, e1
